@@ -20,6 +20,11 @@ CHECKS = {
           "Tens of thousands of generated (matcher, configuration, input) cases; each compares the complete event stream and final byte count of search_slice with 4-8 other strategies: fragmented readers with hook-set buffer capacities down to 0/1 byte, the smallest sufficient heap limit found by bisection, search_path with and without mmap, inputs crossing the 64 KiB default buffer, and all of it again with multi_line(true) requested. Random exploration with shrinking.",
           "Needs the verif-hooks capacity hook to make the buffer roll on small inputs; Interrupted reads are exercised in C16, not here.",
           "DESIGN.md section 3 C02"),
+  "C11": (True, "exploration",
+          "exhaustive small-grammar pattern enumeration + random patterns + repository pattern corpus; per pattern an automata-product search generates a witness line iff one exists, and the witness is executed against the real matcher (concrete oracle)",
+          "Every pattern AST up to 4 nodes (5 thorough) over 9 leaves x LF/CRLF/NUL x plain/-i/-w/-x, every AST up to 6 nodes (7 thorough) of a literal-extraction grammar x plain/-w, ~900 pattern-like literals from the repository, and thousands of random larger patterns. For each accepted pattern the compiled HIR (hook) becomes a dense DFA; BFS over the DFA / DFA products decides over ALL terminator-free byte strings whether a match can contain a terminator or a declared non-matching byte, whether a matching line exists that contains none of the extracted inner literals, and whether the pattern differs from its unterminated build; found witnesses are confirmed by find_at / is_match / find_candidate_line. Exact per pattern (ASCII for Unicode word boundaries); patterns are enumerated to a bound and sampled beyond.",
+          "regex-automata's DFA construction is trusted only as a witness generator (a wrong DFA can lose witnesses, never raise an alarm); needs the verif-hooks HIR/literal accessors; one known finding (NUL terminator vs line anchors) tolerated by exact signature.",
+          "DESIGN.md section 3 C11"),
   "C13": (True, "exploration",
           "proptest-driven generated multi-line patterns and inputs; oracle = matches enumerated with Matcher::find_at over the whole input mapped to lines + LineModel",
           "Tens of thousands of generated -U patterns (templates around \\n plus grammar-generated ones forced to cross line boundaries) on inputs assembled from strings of the pattern's language; the delivered match blocks, context, numbering and offsets are compared with an independent enumeration of the matches over the whole input, with and without -v, context, CRLF/NUL, under slice, reader, file and mmap strategies. Random exploration with shrinking.",
